@@ -794,3 +794,116 @@ Proof.
     rewrite IH. destruct (serial_run ms1 p') as [[rs1 p1]|]; [|reflexivity].
     destruct (serial_run ms2 p1) as [[rs2 p2]|]; reflexivity.
 Qed.
+
+(* ---------- pacing across a whole conversation ---------- *)
+(* Time certainly spent asleep from here up to the next write (or the end of the trace). *)
+Fixpoint quiet (evs : list sev) : N :=
+  match evs with
+  | [] => 0
+  | EvWrite _ :: _ => 0
+  | EvSleep ms :: t => ms + quiet t
+  | EvRead _ :: t => quiet t
+  end.
+(* For every write of the trace: the bytes it delivered and the time slept before the next write. *)
+Fixpoint write_gaps (evs : list sev) : list (list N * N) :=
+  match evs with
+  | [] => []
+  | EvWrite bs :: t => (bs, quiet t) :: write_gaps t
+  | _ :: t => write_gaps t
+  end.
+Fixpoint no_write (evs : list sev) : Prop :=
+  match evs with
+  | [] => True
+  | EvWrite _ :: _ => False
+  | _ :: t => no_write t
+  end.
+
+Lemma no_write_sleep d : no_write (sleep_ev d).
+Proof. destruct d; exact I. Qed.
+Lemma no_write_app a b : no_write a -> no_write b -> no_write (a ++ b).
+Proof. induction a as [|[x|x|x] a IH]; cbn [app no_write]; auto; intros []. Qed.
+Lemma quiet_no_write a b : no_write a -> quiet (a ++ b) = min_duration a + quiet b.
+Proof.
+  induction a as [|[x|x|x] a IH]; cbn [app no_write quiet min_duration]; intros H.
+  - lia.
+  - destruct H.
+  - rewrite (IH H). lia.
+  - exact (IH H).
+Qed.
+Lemma write_gaps_no_write a b : no_write a -> write_gaps (a ++ b) = write_gaps b.
+Proof.
+  induction a as [|[x|x|x] a IH]; cbn [app no_write write_gaps]; intros H; auto. destruct H.
+Qed.
+Lemma quiet_trace_head ms p t : serial_trace ms p = Some t -> quiet t = 0.
+Proof.
+  destruct ms as [|m ms]; cbn [serial_trace]; intros H.
+  - injection H as <-. reflexivity.
+  - destruct (serial_process m p) as [[[res p'] evs]|] eqn:E; [|discriminate].
+    destruct (serial_trace ms p') as [t'|]; [|discriminate]. injection H as <-.
+    pose proof (C18_sleep_placement _ _ _ _ _ E) as Hs. cbv zeta in Hs.
+    destruct Hs as [(_ & _ & ->)|[(_ & _ & _ & ->)|[(_ & _ & _ & ->)|(_ & _ & r & _ & ->)]]]; reflexivity.
+Qed.
+
+(* One exchange contributes exactly one write to the trace, and what is slept before the NEXT write (whichever message
+   that is, however much later it comes) is what this exchange slept after its own write. *)
+Lemma serial_trace_gaps : forall ms p t,
+  serial_trace ms p = Some t ->
+  Forall2 (fun m g =>
+             (fst g <> sent m -> snd g = 0 /\ exists k, fst g = firstn k (sent m))
+             /\ (fst g = sent m ->
+                 exists r, snd g = odur (delay_after_send m) + r /\ (r = 0 \/ r = 100)))
+          ms (write_gaps t).
+Proof.
+  induction ms as [|m ms IH]; cbn [serial_trace]; intros p t H.
+  - injection H as <-. constructor.
+  - destruct (serial_process m p) as [[[res p'] evs]|] eqn:E; [|discriminate].
+    destruct (serial_trace ms p') as [t'|] eqn:Et; [|discriminate]. injection H as <-.
+    pose proof (quiet_trace_head _ _ _ Et) as Hq.
+    specialize (IH _ _ Et).
+    pose proof (C16_written _ _ _ _ _ E) as ((k & Hk) & _).
+    assert (Hd : delivered (pt_out p) (pt_out p') = firstn k (sent m)).
+    { unfold delivered. rewrite Hk. rewrite skipn_app, skipn_all, Nat.sub_diag. reflexivity. }
+    pose proof (C18_sleep_placement _ _ _ _ _ E) as Hs. cbv zeta in Hs.
+    destruct Hs as [(_ & Hne & ->)|[(Heq & _ & _ & ->)|[(Heq & _ & _ & ->)|(Heq & _ & r & _ & ->)]]];
+      cbn [app write_gaps].
+    + constructor; [|exact IH]. cbn [fst snd quiet app]. split.
+      * intros _. split; [exact Hq|]. exists k. exact Hd.
+      * intros Habs. contradiction.
+    + rewrite write_gaps_no_write by apply no_write_sleep.
+      constructor; [|exact IH]. cbn [fst snd]. split; [intros Habs; contradiction|].
+      intros _. rewrite quiet_no_write by apply no_write_sleep.
+      rewrite min_duration_sleep, Hq. exists 0. split; [lia|auto].
+    + rewrite write_gaps_no_write by (apply no_write_app; [apply no_write_sleep|exact I]).
+      constructor; [|exact IH]. cbn [fst snd]. split; [intros Habs; contradiction|].
+      intros _. rewrite quiet_no_write by (apply no_write_app; [apply no_write_sleep|exact I]).
+      rewrite min_duration_app, min_duration_sleep, Hq. cbn [min_duration]. exists 0. split; [lia|auto].
+    + assert (Hnw : no_write (sleep_ev (delay_after_send m) ++ [EvRead (consumed (pt_in p) (pt_in p'))]
+                              ++ sleep_ev (delay_after_receive r))).
+      { apply no_write_app; [apply no_write_sleep|]. cbn [app no_write]. apply no_write_sleep. }
+      rewrite write_gaps_no_write by exact Hnw.
+      constructor; [|exact IH]. cbn [fst snd]. split; [intros Habs; contradiction|].
+      intros _. rewrite quiet_no_write by exact Hnw.
+      rewrite min_duration_app, min_duration_sleep, Hq. cbn [app min_duration]. rewrite min_duration_sleep.
+      exists (odur (delay_after_receive r)). split; [lia|].
+      destruct (delay_after_receive_iff r) as (_ & _ & [Hr|Hr]); rewrite Hr; cbn [odur]; auto.
+Qed.
+
+Lemma Forall2_weaken {A B} (R1 R2 : A -> B -> Prop) :
+  (forall a b, R1 a b -> R2 a b) -> forall l1 l2, Forall2 R1 l1 l2 -> Forall2 R2 l1 l2.
+Proof. intros HR l1 l2 F. induction F as [|a b l1 l2 Hab F IH]; constructor; auto. Qed.
+
+(* The property's sentence: after a data chunk has been written, at least 30 ms are slept before the next write. *)
+Lemma serial_trace_data_chunk_gap ms p t :
+  serial_trace ms p = Some t ->
+  Forall2 (fun m g => (exists o d, m = SendData o d) -> fst g = sent m -> 30 <= snd g) ms (write_gaps t)
+  /\ Forall2 (fun m g => (~ exists o d, m = SendData o d) -> snd g = 0 \/ snd g = 100) ms (write_gaps t).
+Proof.
+  intros H. pose proof (serial_trace_gaps _ _ _ H) as F. split.
+  - refine (Forall2_weaken _ _ _ _ _ F). intros m g [Hne Heq] (o & d & ->) Hfull.
+    destruct (Heq Hfull) as (r & -> & _). cbn [delay_after_send odur]. lia.
+  - refine (Forall2_weaken _ _ _ _ _ F). intros m g [Hne Heq] Hnd.
+    destruct (list_eq_dec N.eq_dec (fst g) (sent m)) as [Hfull|Hpart].
+    + destruct (Heq Hfull) as (r & -> & Hr).
+      destruct (delay_after_send_iff m) as (_ & Hnone & _). rewrite (proj2 Hnone Hnd). cbn [odur]. lia.
+    + destruct (Hne Hpart) as [-> _]. auto.
+Qed.
